@@ -102,11 +102,20 @@ func rpcHistory(c *Ctx, id int) {
 		}
 	}
 	n.Momentum()
-	// leave some blocks unconfirmed and some sends unreceived
+	// the amount family (s_rpc_amounts.go): two user-issued tokens with supplies up to 2^255-1 and sends / receives / mints /
+	// a burn of amounts around 2^63, 2^64, 2^128 and of random 63..254-bit values, in EVERY history; it leaves some
+	// blocks unconfirmed and some sends unreceived
+	hugeTokens := rpcHugeAmounts(c, n, id)
 	l := api.NewLedgerApi(n.Z)
 	H := n.Height()
 	st := n.Chain().GetFrontierMomentumStore()
 	fail := func(format string, a ...interface{}) { c.Fail("rpc run=%d: %s", id, fmt.Sprintf(format, a...)) }
+	rtFails := 0
+	rtFail := func(format string, a ...interface{}) { // the random pages return the same blocks many times: the first few reports say it all
+		if rtFails++; rtFails <= 6 {
+			fail(format, a...)
+		}
+	}
 
 	var unknown types.Address
 	c.R.Read(unknown[:])
@@ -230,22 +239,8 @@ func rpcHistory(c *Ctx, id int) {
 				if ref == nil || ref.Hash != b.Hash {
 					fail("C18: GetAccountBlocksByPage returns a block at height %d that is not on the account chain", b.Height)
 				}
-				// JSON round trip: the block returned as JSON, fed back, is the same block with the same hash
-				js, jerr := json.Marshal(b)
-				if jerr != nil {
-					fail("C18: block %s/%d does not marshal: %v", addrName(a), b.Height, jerr)
-					continue
-				}
-				back := new(api.AccountBlock)
-				if jerr := json.Unmarshal(js, back); jerr != nil {
-					fail("C18: JSON of block %s/%d does not parse back: %v", addrName(a), b.Height, jerr)
-					continue
-				}
-				lb, jerr := back.ToLedgerBlock()
-				if jerr != nil || lb.ComputeHash() != b.Hash || lb.Hash != b.Hash {
-					fail("C18: block %s/%d returned as JSON and fed back has hash %v (computed %v), original %v", addrName(a), b.Height, lb.Hash, lb.ComputeHash(), b.Hash)
-				}
-				c.Hit("json-roundtrip")
+				// JSON round trip: the block returned as JSON, fed back, is the same block with the same hash (s_rpc_amounts.go)
+				rpcBlockRoundTrip(c, rtFail, fmt.Sprintf("ledger.getAccountBlocksByPage(%s,%d,%d)", addrName(a), i, sz), b, ref)
 			}
 		}
 		// complete sweep: every block exactly once, newest first
@@ -353,6 +348,8 @@ func rpcHistory(c *Ctx, id int) {
 			c.Hit("unreceived")
 		}
 	}
+	// ---- JSON round trip of every block every block-returning getter returns (s_rpc_amounts.go)
+	rpcRoundTripEverything(c, n, l, id, addrs, hugeTokens)
 	// ---- embedded-contract list getters: paging with any page size yields the one-big-page sequence, each element once
 	pagers := map[string]func(i, k uint32) (interface{}, error){
 		"embedded.pillar.getAll":             func(i, k uint32) (interface{}, error) { return embedded.NewPillarApi(n.Z, true).GetAll(i, k) },
